@@ -61,6 +61,9 @@ FPad(n)                 == [F0 EXCEPT !.k = "pad4", !.n = n]
 \* a notification (LZMA_NO_CHECK / LZMA_UNSUPPORTED_CHECK / LZMA_GET_CHECK) returned once after the header that
 \* reveals the Check type (stream_decoder.c, auto_decoder.c, lzip_decoder.c: the sequence is advanced BEFORE returning)
 FNote(code)             == [F0 EXCEPT !.k = "note", !.err = code]
+\* an internal limit has been reached (MicroLZMA comp_size used up, Compressed Size of a Block reached, file size of
+\* the file-info decoder, ...): the coder returns LZMA_OK without touching either buffer, whatever it is offered
+FStop                   == [F0 EXCEPT !.k = "stop"]
 
 Opt0 == [bcj |-> 0, allowEopm |-> TRUE, rederive |-> TRUE, noteStuck |-> FALSE]
 Notifs == {"NO_CHECK", "UNSUPPORTED_CHECK", "GET_CHECK"}
@@ -115,6 +118,7 @@ Run(inp, c, ai, ao, fin, loc, uin, out) ==
       [] f.k = "note" ->
            \* opt.noteStuck: the sequence is NOT advanced before the early return (every call reports it again)
            Res(IF inp.opt.noteStuck THEN c ELSE next, uin, out, f.err)
+      [] f.k = "stop" -> Res(c, uin, out, "OK")
       [] f.k = "pad4" ->
            \* zero bytes c.pos+1..f.n of this field, then either the end of the input or a non-zero byte
            LET zeros == Min(ri, f.n - c.pos)
